@@ -1,6 +1,6 @@
 From Coq Require Import List Arith Lia Permutation Sorted ZArith Bool.
 From MB Require Import Base.Prelude Model.Framework Model.Sim Proofs.Tactics Proofs.SimHeap.
-From MB Require Import Proofs.FrameworkSlots Proofs.SimTimers Proofs.SimConserve.
+From MB Require Import Proofs.FrameworkInv Proofs.FrameworkSlots Proofs.SimTimers Proofs.SimConserve.
 Import ListNotations.
 Open Scope N_scope.
 
@@ -499,3 +499,585 @@ Proof. induction l as [|x l IH]; intros sq H; cbn [fold_left]; [exact H|]. apply
 
 Lemma fold_push_routed : forall l sq, routed sq -> routed (fold_left sq_push l sq).
 Proof. induction l as [|x l IH]; intros sq H; cbn [fold_left]; [exact H|]. apply IH. apply sq_push_routed. exact H. Qed.
+
+(** ** multisets of times, by counting *)
+Definition cz (l : list Z) (z : Z) : nat := count_occ Z.eq_dec l z.
+Definition one (a z : Z) : nat := if Z.eq_dec a z then 1%nat else 0%nat.
+Definition ct (p : sev -> bool) (l : list sev) (z : Z) : nat := cz (times p l) z.
+
+Lemma cz_nil : forall z, cz [] z = 0%nat.
+Proof. reflexivity. Qed.
+
+Lemma cz_cons : forall a l z, cz (a :: l) z = (one a z + cz l z)%nat.
+Proof. intros a l z. unfold cz, one. cbn [count_occ]. destruct (Z.eq_dec a z); reflexivity. Qed.
+
+Lemma cz_app : forall l1 l2 z, cz (l1 ++ l2) z = (cz l1 z + cz l2 z)%nat.
+Proof. intros l1 l2 z. unfold cz. apply count_occ_app. Qed.
+
+Lemma cz_in : forall l z, In z l <-> (0 < cz l z)%nat.
+Proof. intros l z. unfold cz. apply (count_occ_In Z.eq_dec). Qed.
+
+Lemma cz_perm : forall l l', (forall z, cz l z = cz l' z) -> Permutation l l'.
+Proof. intros l l' H. apply (Permutation_count_occ Z.eq_dec). exact H. Qed.
+
+Lemma perm_cz : forall l l', Permutation l l' -> forall z, cz l z = cz l' z.
+Proof. intros l l' H. apply (Permutation_count_occ Z.eq_dec). exact H. Qed.
+
+Lemma cz_zero_nil : forall l, (forall z, cz l z = 0%nat) -> l = [].
+Proof.
+  intros [|a l] H; [reflexivity|]. specialize (H a). rewrite cz_cons in H.
+  unfold one in H. destruct (Z.eq_dec a a); [lia|contradiction].
+Qed.
+
+Lemma ct_nil : forall p z, ct p [] z = 0%nat.
+Proof. reflexivity. Qed.
+
+Lemma ct_cons : forall p x l z,
+  ct p (x :: l) z = ((if p x then one (se_time x) z else 0%nat) + ct p l z)%nat.
+Proof.
+  intros p x l z. unfold ct, times. cbn [filter]. destruct (p x); [|reflexivity].
+  cbn [map]. apply cz_cons.
+Qed.
+
+Lemma ct_app : forall p l1 l2 z, ct p (l1 ++ l2) z = (ct p l1 z + ct p l2 z)%nat.
+Proof. intros p l1 l2 z. unfold ct, times. rewrite filter_app, map_app. apply cz_app. Qed.
+
+Lemma ct_perm : forall l l', Permutation l l' -> forall p z, ct p l z = ct p l' z.
+Proof.
+  intros l l' HP p z. induction HP as [|x l l' HP IH|x y l|l l' l'' HP1 IH1 HP2 IH2].
+  - reflexivity.
+  - rewrite !ct_cons, IH. reflexivity.
+  - rewrite !ct_cons. lia.
+  - congruence.
+Qed.
+
+Lemma ct_pos : forall p l z, (0 < ct p l z)%nat -> exists e, In e l /\ p e = true /\ se_time e = z.
+Proof.
+  intros p l z H. unfold ct in H. apply cz_in in H. unfold times in H.
+  apply in_map_iff in H. destruct H as (e & Ht & He). apply filter_In in He.
+  exists e. tauto.
+Qed.
+
+Lemma ct_in : forall p l e, In e l -> p e = true -> (0 < ct p l (se_time e))%nat.
+Proof.
+  intros p l e He Hp. unfold ct. apply cz_in. unfold times. apply in_map.
+  apply filter_In. auto.
+Qed.
+
+Lemma ct_none : forall p l z, (forall e, In e l -> p e = false) -> ct p l z = 0%nat.
+Proof.
+  intros p l z H. induction l as [|x l IH]; [reflexivity|].
+  rewrite ct_cons, (H x (or_introl eq_refl)), IH; [reflexivity|].
+  intros e He. apply H. right. exact He.
+Qed.
+
+Lemma times_ct_perm : forall p l L, (forall z, ct p l z = cz L z) -> Permutation (times p l) L.
+Proof. intros p l L H. apply cz_perm. exact H. Qed.
+
+(** ** the sliding window fed with a list of times *)
+Fixpoint wstate (win : N) (w : list Z) (ts : list Z) : list Z :=
+  match ts with
+  | [] => w
+  | t :: r => wstate win (fst (window_add_w win w t)) r
+  end.
+
+Lemma wstate_snoc : forall win ts w t,
+  wstate win w (ts ++ [t]) = fst (window_add_w win (wstate win w ts) t).
+Proof. induction ts as [|a ts IH]; intros w t; cbn [wstate app]; [reflexivity|apply IH]. Qed.
+
+Lemma win_counts_from_app : forall win a b w,
+  win_counts_from win w (a ++ b) = win_counts_from win w a ++ win_counts_from win (wstate win w a) b.
+Proof.
+  induction a as [|x a IH]; intros b w; cbn [win_counts_from wstate app]; [reflexivity|].
+  destruct (window_add_w win w x) as [w' c] eqn:E. cbn [fst app]. rewrite IH. reflexivity.
+Qed.
+
+Lemma win_count_in : forall win pre t post,
+  In (snd (window_add_w win (wstate win [] pre) t)) (win_counts win (pre ++ t :: post)).
+Proof.
+  intros win pre t post. unfold win_counts. rewrite win_counts_from_app.
+  apply in_or_app. right. cbn [win_counts_from].
+  destruct (window_add_w win (wstate win [] pre) t) as [w' c]. left. reflexivity.
+Qed.
+
+Lemma ssorted_app_r : forall (a b : list Z), StronglySorted Z.le (a ++ b) -> StronglySorted Z.le b.
+Proof.
+  induction a as [|x a IH]; intros b H; [exact H|]. cbn [app] in H.
+  apply StronglySorted_inv in H. apply IH. apply H.
+Qed.
+
+(** ** accounting for one direction.  [X = true]: packets sent by the client.  [L] is the sorted
+    list of send times; [pre] has been through the bottleneck, [post] is still pending *)
+Definition shift (d : N) (l : list Z) : list Z := map (fun t => (t + Z.of_N d)%Z) l.
+
+Definition dir_inv (X : bool) (d : N) (L : list Z) (cw : list Z) (acc Q : list sev) : Prop :=
+  exists pre post,
+    L = pre ++ post /\ cw = wstate WINDOW [] pre /\
+    (forall z, (ct (is_ns X) Q z + ct (is_ts X false) Q z = cz post z)%nat) /\
+    (forall z, ct (is_ts X false) acc z = cz pre z) /\
+    (forall z, (ct (is_tr (negb X) false) acc z + ct (is_tr (negb X) false) Q z = cz (shift d pre) z)%nat).
+
+Lemma dir_head : forall X L pre post Q next,
+  StronglySorted Z.le L -> L = pre ++ post ->
+  (forall z, (ct (is_ns X) Q z + ct (is_ts X false) Q z = cz post z)%nat) ->
+  In next Q -> (forall e, In e Q -> (se_time next <= se_time e)%Z) ->
+  is_ts X false next = true ->
+  exists post', post = se_time next :: post'.
+Proof.
+  intros X L pre post Q next HL HLe H1 Hin Hmin Hts.
+  pose proof (ct_in _ _ _ Hin Hts) as Hpos.
+  destruct post as [|h post'].
+  { specialize (H1 (se_time next)). rewrite cz_nil in H1. lia. }
+  exists post'. f_equal.
+  assert (A : (se_time next <= h)%Z).
+  { pose proof (H1 h) as Hh. rewrite cz_cons in Hh. unfold one in Hh.
+    destruct (Z.eq_dec h h) as [_|C]; [|contradiction].
+    assert (Hor : (0 < ct (is_ns X) Q h)%nat \/ (0 < ct (is_ts X false) Q h)%nat) by lia.
+    destruct Hor as [Hp|Hp]; apply ct_pos in Hp; destruct Hp as (e & He & _ & <-); apply Hmin; exact He. }
+  assert (B : (h <= se_time next)%Z).
+  { assert (Hi : In (se_time next) (h :: post')).
+    { apply cz_in. rewrite <- H1. lia. }
+    destruct Hi as [->|Hi]; [lia|].
+    rewrite HLe in HL. apply ssorted_app_r in HL. apply StronglySorted_inv in HL.
+    destruct HL as [_ HF]. rewrite Forall_forall in HF. apply HF. exact Hi. }
+  lia.
+Qed.
+
+Lemma shift_snoc : forall d l t, shift d (l ++ [t]) = shift d l ++ [(t + Z.of_N d)%Z].
+Proof. intros d l t. unfold shift. rewrite map_app. reflexivity. Qed.
+
+Ltac count_tac HQ HQ3 H1 H2 H3 :=
+  let z := fresh "z" in
+  intros z; specialize (H1 z); specialize (H2 z); specialize (H3 z);
+  pose proof (ct_perm _ _ HQ) as EQ; pose proof (ct_perm _ _ HQ3) as EQ3;
+  rewrite ?EQ in *; rewrite ?EQ3; clear EQ EQ3;
+  cbn [out_of se_ev se_time se_client app] in *;
+  rewrite ?shift_snoc, ?cz_app, ?ct_cons, ?cz_cons, ?ct_nil, ?cz_nil in *;
+  cbn [is_ns is_ts is_tr se_ev se_client se_pad se_time is_tunnel_sent is_tunnel_recv
+       Bool.eqb negb andb] in *;
+  lia.
+
+Lemma dir_step : forall X d L cw acc Q Q1 Q3 next,
+  StronglySorted Z.le L ->
+  dir_inv X d L cw acc Q ->
+  Permutation Q (next :: Q1) ->
+  (forall e, In e Q -> (se_time next <= se_time e)%Z) ->
+  plain next ->
+  Permutation Q3 (out_of d next ++ Q1) ->
+  dir_inv X d L (if is_ts X false next then fst (window_add_w WINDOW cw (se_time next)) else cw)
+          (next :: acc) Q3.
+Proof.
+  intros X d L cw acc Q Q1 Q3 next HL (pre & post & HLe & Hcw & H1 & H2 & H3) HQ Hmin Hpl HQ3.
+  assert (Hin : In next Q).
+  { eapply Permutation_in; [apply Permutation_sym; exact HQ|left; reflexivity]. }
+  destruct (is_ts X false next) eqn:Ets.
+  - destruct (dir_head X L pre post Q next HL HLe H1 Hin Hmin Ets) as (post' & ->).
+    exists (pre ++ [se_time next]), post'.
+    split; [rewrite <- app_assoc; exact HLe|].
+    split; [rewrite wstate_snoc, <- Hcw; reflexivity|].
+    destruct next as [ev t cl pad by_ rp]. destruct Hpl as (Hp1 & Hp2 & Hp3 & Hev).
+    cbn [se_pad se_bypass se_replace se_ev] in Hp1, Hp2, Hp3, Hev. subst pad by_ rp.
+    destruct ev; try (exfalso; destruct Hev as [C|[C|[C|C]]]; discriminate C);
+      destruct cl, X; try discriminate Ets; clear Hev Ets Hmin Hin;
+      (split; [|split]); count_tac HQ HQ3 H1 H2 H3.
+  - exists pre, post. split; [exact HLe|]. split; [exact Hcw|].
+    destruct next as [ev t cl pad by_ rp]. destruct Hpl as (Hp1 & Hp2 & Hp3 & Hev).
+    cbn [se_pad se_bypass se_replace se_ev] in Hp1, Hp2, Hp3, Hev. subst pad by_ rp.
+    destruct ev; try (exfalso; destruct Hev as [C|[C|[C|C]]]; discriminate C);
+      destruct cl, X; try discriminate Ets; clear Hev Ets Hmin Hin;
+      (split; [|split]); count_tac HQ HQ3 H1 H2 H3.
+Qed.
+
+Lemma dir_count : forall X d L cw acc Q next,
+  StronglySorted Z.le L -> dir_inv X d L cw acc Q ->
+  In next Q -> (forall e, In e Q -> (se_time next <= se_time e)%Z) ->
+  is_ts X false next = true ->
+  In (snd (window_add_w WINDOW cw (se_time next))) (win_counts WINDOW L).
+Proof.
+  intros X d L cw acc Q next HL (pre & post & HLe & Hcw & H1 & _ & _) Hin Hmin Hts.
+  destruct (dir_head X L pre post Q next HL HLe H1 Hin Hmin Hts) as (post' & ->).
+  rewrite HLe, Hcw. apply win_count_in.
+Qed.
+
+Lemma dir_final : forall X d L cw acc Q,
+  dir_inv X d L cw acc Q ->
+  (forall e, In e Q -> is_ns X e = false /\ is_ts X false e = false /\ is_tr (negb X) false e = false) ->
+  (forall z, ct (is_ts X false) acc z = cz L z) /\
+  (forall z, ct (is_tr (negb X) false) acc z = cz (shift d L) z).
+Proof.
+  intros X d L cw acc Q (pre & post & HLe & _ & H1 & H2 & H3) HQ.
+  assert (Hpost : post = []).
+  { apply cz_zero_nil. intros z. rewrite <- H1.
+    rewrite !ct_none; [reflexivity| |]; intros e He; apply HQ; exact He. }
+  subst post. rewrite app_nil_r in HLe. subst pre. split; [exact H2|].
+  intros z. rewrite <- H3. rewrite (ct_none _ Q); [lia|]. intros e He. apply HQ. exact He.
+Qed.
+
+Lemma net_after_cwin : forall nb next, se_pad next = false ->
+  n_cwin (net_after nb next) =
+  if is_ts true false next then fst (window_add_w WINDOW (n_cwin nb) (se_time next)) else n_cwin nb.
+Proof.
+  intros nb next Hp. unfold net_after, is_ts, net_set_win, net_win. rewrite Hp.
+  destruct (se_ev next); cbn [is_tunnel_sent andb]; try reflexivity.
+  destruct (se_client next); reflexivity.
+Qed.
+
+Lemma net_after_swin : forall nb next, se_pad next = false ->
+  n_swin (net_after nb next) =
+  if is_ts false false next then fst (window_add_w WINDOW (n_swin nb) (se_time next)) else n_swin nb.
+Proof.
+  intros nb next Hp. unfold net_after, is_ts, net_set_win, net_win. rewrite Hp.
+  destruct (se_ev next); cbn [is_tunnel_sent andb]; try reflexivity.
+  destruct (se_client next); reflexivity.
+Qed.
+
+Lemma quiet_net_after : forall d l nb next, quiet_net d l nb -> quiet_net d l (net_after nb next).
+Proof.
+  intros d l nb next H. unfold net_after. destruct (se_ev next); try exact H.
+  apply quiet_net_set_win. exact H.
+Qed.
+
+(** ** (f) the loop invariant *)
+Section Loop.
+  Variables (cc sc : cfg) (tp : tape) (args : simargs) (delay limit : N) (Lc Ls : list Z).
+  Hypothesis Hfull : full_args args.
+  Hypothesis Hcont : a_continue args = false.
+  Hypothesis Hmt : a_max_trace args = 0.
+  Hypothesis Hmi : a_max_iter args = 0.
+  Hypothesis Hd : delay < DMAX.
+  Hypothesis HLc : StronglySorted Z.le Lc.
+  Hypothesis HLs : StronglySorted Z.le Ls.
+  Hypothesis Htc : forall c, In c (win_counts WINDOW Lc) -> c <= limit.
+  Hypothesis Hts : forall c, In c (win_counts WINDOW Ls) -> c <= limit.
+
+  Record LI (st : sim) (nowt : Z) (acc : list sev) : Prop := mkLI {
+    li_c : idle_side (m_c st);
+    li_s : idle_side (m_s st);
+    li_net : quiet_net delay limit (m_net st);
+    li_wf : sq_wf (m_sq st);
+    li_hp : sq_heaps (m_sq st);
+    li_rt : routed (m_sq st);
+    li_plq : forall e, In e (all_events (m_sq st)) -> plain e;
+    li_rng : in_range nowt (all_events (m_sq st));
+    li_pla : forall e, In e acc -> plain e;
+    li_dc : dir_inv true delay Lc (n_cwin (m_net st)) acc (all_events (m_sq st));
+    li_ds : dir_inv false delay Ls (n_swin (m_net st)) acc (all_events (m_sq st))
+  }.
+
+  Definition done (acc : list sev) : Prop :=
+    (forall e, In e acc -> plain e) /\
+    (forall z, ct (is_ts true false) acc z = cz Lc z) /\
+    (forall z, ct (is_tr false false) acc z = cz (shift delay Lc) z) /\
+    (forall z, ct (is_ts false false) acc z = cz Ls z) /\
+    (forall z, ct (is_tr true false) acc z = cz (shift delay Ls) z).
+
+  Lemma LI_done : forall st nowt acc,
+    LI st nowt acc ->
+    (forall e, In e (all_events (m_sq st)) ->
+       se_ev e <> TENormalSent /\ se_ev e <> TETunnelSent /\ se_ev e <> TETunnelRecv) ->
+    done acc.
+  Proof.
+    intros st nowt acc I HQ.
+    assert (HQ' : forall X e, In e (all_events (m_sq st)) ->
+              is_ns X e = false /\ is_ts X false e = false /\ is_tr (negb X) false e = false).
+    { intros X e He. destruct (HQ e He) as (A & B & C). unfold is_ns, is_ts, is_tr.
+      destruct (se_ev e); try (split; [|split]; reflexivity); congruence. }
+    destruct (dir_final _ _ _ _ _ _ (li_dc _ _ _ I) (HQ' true)) as [A1 A2].
+    destruct (dir_final _ _ _ _ _ _ (li_ds _ _ _ I) (HQ' false)) as [B1 B2].
+    unfold done. split; [exact (li_pla _ _ _ I)|]. auto.
+  Qed.
+
+  Lemma LI_step : forall st nowt acc next sq' c3 s3 pos3,
+    LI st nowt acc ->
+    Permutation (all_events (m_sq st)) (next :: all_events sq') ->
+    In next (all_events (m_sq st)) ->
+    (forall e, In e (all_events (m_sq st)) -> (se_time next <= se_time e)%Z) ->
+    sq_wf sq' -> sq_heaps sq' -> routed sq' ->
+    idle_side c3 -> idle_side s3 ->
+    LI (mksim (fold_left sq_push (out_of delay next) sq') c3 s3 (net_after (m_net st) next) pos3)
+       (se_time next) (next :: acc).
+  Proof.
+    intros st nowt acc next sq' c3 s3 pos3 I HP Hin Hmin W' Hh' R' Hc3 Hs3.
+    pose proof (li_plq _ _ _ I next Hin) as Hpl.
+    pose proof (li_rng _ _ _ I next Hin) as Hrn.
+    assert (HP3 : Permutation (all_events (fold_left sq_push (out_of delay next) sq'))
+                              (out_of delay next ++ all_events sq')) by apply fold_push_perm.
+    assert (Hsub : forall e, In e (all_events sq') -> In e (all_events (m_sq st))).
+    { intros e He. eapply Permutation_in; [apply Permutation_sym; exact HP|right; exact He]. }
+    constructor; cbn [m_c m_s m_net m_sq].
+    - exact Hc3.
+    - exact Hs3.
+    - apply quiet_net_after. exact (li_net _ _ _ I).
+    - apply fold_push_wf. exact W'.
+    - apply fold_push_heaps. exact Hh'.
+    - apply fold_push_routed. exact R'.
+    - intros e He. apply (Permutation_in _ HP3) in He. apply in_app_or in He.
+      destruct He as [He|He]; [eapply out_of_plain; exact He|].
+      apply (li_plq _ _ _ I). apply Hsub. exact He.
+    - intros e He. apply (Permutation_in _ HP3) in He. apply in_app_or in He.
+      destruct He as [He|He].
+      + apply out_of_time in He. lia.
+      + apply Hsub in He. pose proof (Hmin e He). pose proof (li_rng _ _ _ I e He). lia.
+    - intros e [<-|He]; [exact Hpl|]. apply (li_pla _ _ _ I). exact He.
+    - rewrite net_after_cwin by apply Hpl.
+      eapply dir_step; [exact HLc|exact (li_dc _ _ _ I)|exact HP|exact Hmin|exact Hpl|exact HP3].
+    - rewrite net_after_swin by apply Hpl.
+      eapply dir_step; [exact HLs|exact (li_ds _ _ _ I)|exact HP|exact Hmin|exact Hpl|exact HP3].
+  Qed.
+
+  Theorem sim_loop_identity : forall fuel st nowt acc it out,
+    LI st nowt acc ->
+    sim_loop fuel cc sc tp args st nowt acc it = Ok out ->
+    exists accf, out = rev accf /\ done accf.
+  Proof.
+    induction fuel as [|fuel IH]; intros st nowt acc it out I H; [discriminate H|].
+    cbn [sim_loop] in H. mbind H as [nx st1] Ep.
+    apply (pick_next_min _ _ _ _ _ delay limit (li_c _ _ _ I) (li_s _ _ _ I) (li_net _ _ _ I)
+             (li_wf _ _ _ I) (li_hp _ _ _ I) (li_rng _ _ _ I)) in Ep.
+    destruct Ep as [(-> & -> & Eall)|(next & sq' & -> & -> & HP & Hin & Hmin & W' & Hh' & R')].
+    - injection H as <-. exists acc. split; [reflexivity|].
+      eapply LI_done; [exact I|]. intros e He. rewrite Eall in He. destruct He.
+    - specialize (R' (li_rt _ _ _ I)). cbn [m_sq m_c m_s m_net m_pos] in H.
+      pose proof (li_plq _ _ _ I next Hin) as Hpl.
+      pose proof (li_rng _ _ _ I next Hin) as Hrn.
+      destruct (Z.ltb_spec (se_time next) nowt) as [C|_]; [lia|].
+      mbind H as [[sq2 net2] act] En.
+      apply sim_network_stack_plain in En; [|exact Hpl|].
+      2:{ intros Ev. destruct (li_net _ _ _ I) as (_ & _ & _ & _ & ->).
+          destruct Hpl as (Hpad & _).
+          destruct (se_client next) eqn:Ecl; cbn [net_win].
+          - apply Htc. eapply dir_count; [exact HLc|exact (li_dc _ _ _ I)|exact Hin|exact Hmin|].
+            unfold is_ts. rewrite Ev, Ecl, Hpad. reflexivity.
+          - apply Hts. eapply dir_count; [exact HLs|exact (li_ds _ _ _ I)|exact Hin|exact Hmin|].
+            unfold is_ts. rewrite Ev, Ecl, Hpad. reflexivity. }
+      destruct En as [-> ->].
+      replace (n_delay (m_net st)) with delay in H
+        by (destruct (li_net _ _ _ I) as (_ & _ & _ & E & _); symmetry; exact E).
+      mbind H as [[[c3 s3] sq3] pos3] Et.
+      assert (Hst : sq3 = fold_left sq_push (out_of delay next) sq' /\ idle_side c3 /\ idle_side s3).
+      { destruct (se_client next).
+        - mbind Et as [[c' sq''] p'] Eu. injection Et as <- <- <- <-.
+          apply trigger_update_idle in Eu; [|exact (li_c _ _ _ I)].
+          destruct Eu as (-> & Hi & _). split; [reflexivity|]. split; [exact Hi|exact (li_s _ _ _ I)].
+        - mbind Et as [[s' sq''] p'] Eu. injection Et as <- <- <- <-.
+          apply trigger_update_idle in Eu; [|exact (li_s _ _ _ I)].
+          destruct Eu as (-> & Hi & _). split; [reflexivity|]. split; [exact (li_c _ _ _ I)|exact Hi]. }
+      destruct Hst as (-> & Hc3 & Hs3). clear Et.
+      destruct Hfull as [Hoc Hon]. rewrite Hoc, Hon, Hmt, Hmi, Hcont in H.
+      cbn [negb orb andb] in H. change (0 <? 0) with false in H. cbn [andb] in H.
+      pose proof (LI_step st nowt acc next sq' c3 s3 pos3 I HP Hin Hmin W' Hh' R' Hc3 Hs3) as I3.
+      destruct (sq_no_normal (fold_left sq_push (out_of delay next) sq')) eqn:Enn.
+      + injection H as <-. exists (next :: acc). split; [reflexivity|].
+        eapply LI_done; [exact I3|]. cbn [m_sq]. intros e He.
+        eapply sq_no_normal_events; [exact (li_rt _ _ _ I3)|exact Enn|exact He].
+      + eapply IH; [exact I3|exact H].
+  Qed.
+End Loop.
+
+(** ** the parsed trace *)
+Definition ev_of (d : N) (x : Z * bool) : sev :=
+  if snd x then mksev TENormalSent (fst x) true false false false
+  else mksev TENormalSent (fst x - Z.of_N d)%Z false false false false.
+
+Lemma parse_lines_events : forall tr d q sw rw smax rmax q' pps,
+  parse_lines tr d q sw rw smax rmax = (q', pps) ->
+  Permutation (all_events q') (map (ev_of d) tr ++ all_events q) /\ (sq_heaps q -> sq_heaps q').
+Proof.
+  induction tr as [|[t dir] rest IH]; intros d q sw rw smax rmax q' pps H; cbn [parse_lines] in H.
+  - injection H as <- _. split; [apply Permutation_refl|auto].
+  - destruct dir.
+    + destruct (window_add_w PARSE_WINDOW sw t) as [sw' m]. apply IH in H. destruct H as [HP Hh].
+      split; [|intros A; apply Hh; apply sq_heaps_push; exact A].
+      rewrite HP, sq_push_perm. cbn [map app]. apply Permutation_sym. apply Permutation_middle.
+    + destruct (window_add_w PARSE_WINDOW rw t) as [rw' m]. apply IH in H. destruct H as [HP Hh].
+      split; [|intros A; apply Hh; apply sq_heaps_push; exact A].
+      rewrite HP, sq_push_perm. cbn [map app]. apply Permutation_sym. apply Permutation_middle.
+Qed.
+
+Lemma parse_trace_events : forall tr d,
+  Permutation (all_events (parse_trace tr d)) (map (ev_of d) tr) /\ sq_heaps (parse_trace tr d).
+Proof.
+  intros tr d. unfold parse_trace.
+  destruct (parse_lines tr d (mksimq evq_empty evq_empty None) [] [] 0 0) as [q pps] eqn:E.
+  apply parse_lines_events in E. destruct E as [HP Hh]. split.
+  - change (all_events (mksimq (sq_c q) (sq_s q) (Some pps))) with (all_events q).
+    rewrite HP. change (all_events (mksimq evq_empty evq_empty None)) with (@nil sev).
+    rewrite app_nil_r. apply Permutation_refl.
+  - assert (H0 : sq_heaps (mksimq evq_empty evq_empty None)).
+    { unfold sq_heaps, heaps_ok, evq_empty. cbn [sq_c sq_s q_base q_blocking q_bypass q_internal].
+      repeat split; apply hp_nil. }
+    exact (Hh H0).
+Qed.
+
+Definition unshift (d : N) (l : list Z) : list Z := map (fun t => (t - Z.of_N d)%Z) l.
+
+Lemma ev_of_counts : forall d tr z,
+  ct (is_ns true) (map (ev_of d) tr) z = cz (sends tr) z /\
+  ct (is_ns false) (map (ev_of d) tr) z = cz (unshift d (recvs tr)) z.
+Proof.
+  intros d tr z. induction tr as [|[t dir] rest [IH1 IH2]]; [split; reflexivity|].
+  unfold sends, recvs, unshift in *. cbn [map filter snd fst negb]. rewrite !ct_cons.
+  destruct dir; cbn [ev_of snd fst negb map is_ns se_ev se_client Bool.eqb se_time];
+    rewrite ?cz_cons, IH1, IH2; split; reflexivity.
+Qed.
+
+Lemma ev_of_spec : forall d tr e, In e (map (ev_of d) tr) ->
+  plain e /\ se_ev e = TENormalSent /\
+  exists a, In a (map fst tr) /\ (se_time e = a \/ se_time e = (a - Z.of_N d)%Z).
+Proof.
+  intros d tr e H. apply in_map_iff in H. destruct H as ([t dir] & <- & Hin).
+  assert (Ha : In t (map fst tr)) by (apply in_map_iff; exists (t, dir); auto).
+  unfold ev_of, plain. destruct dir; cbn [snd fst se_pad se_bypass se_replace se_ev se_time];
+    (split; [auto 10|]); (split; [reflexivity|]); exists t; auto.
+Qed.
+
+Lemma ssorted_map_filter : forall (f : Z -> Z) (p : Z * bool -> bool) tr,
+  (forall a b, (a <= b)%Z -> (f a <= f b)%Z) ->
+  StronglySorted Z.le (map fst tr) -> StronglySorted Z.le (map f (map fst (filter p tr))).
+Proof.
+  intros f p tr Hf. induction tr as [|x rest IH]; intros H; cbn [filter map]; [constructor|].
+  cbn [map] in H. apply StronglySorted_inv in H. destruct H as [Hs Hall].
+  destruct (p x); [|apply IH; exact Hs]. cbn [map]. constructor; [apply IH; exact Hs|].
+  rewrite Forall_forall in *. intros y Hy. apply in_map_iff in Hy. destruct Hy as (a & <- & Ha).
+  apply Hf. apply Hall. apply in_map_iff in Ha. destruct Ha as (xa & <- & Hxa).
+  apply filter_In in Hxa. apply in_map. apply Hxa.
+Qed.
+
+(** the first instant is the earliest queued event *)
+Lemma first_time_min : forall sq t0,
+  init_simq sq -> sq_heaps sq -> sq_first_time sq = Some t0 ->
+  (forall e, In e (all_events sq) -> (t0 <= se_time e)%Z) /\
+  exists e0, In e0 (all_events sq) /\ se_time e0 = t0.
+Proof.
+  intros sq t0 (H1 & H2 & H3 & H4 & H5 & H6 & _ & _) [(Hc & _) (Hs & _)] H.
+  assert (HQ : all_events sq = q_base (sq_c sq) ++ q_base (sq_s sq)).
+  { unfold all_events. rewrite H1, H2, H3, H4, H5, H6. cbn [app]. rewrite app_nil_r. reflexivity. }
+  rewrite HQ. unfold sq_first_time in H.
+  pose proof (lb_peek _ Hc) as Lc. pose proof (lb_peek _ Hs) as Ls.
+  pose proof (@SimTimers.heap_peek_in sev (q_base (sq_c sq))) as Ic.
+  pose proof (@SimTimers.heap_peek_in sev (q_base (sq_s sq))) as Is.
+  destruct (heap_peek (q_base (sq_c sq))) as [c|], (heap_peek (q_base (sq_s sq))) as [s|];
+    cbn [lb] in Lc, Ls; try discriminate H; injection H as <-.
+  - specialize (Ic c eq_refl). specialize (Is s eq_refl). split.
+    + intros e He. apply in_app_or in He.
+      destruct He as [He|He]; [apply Lc, kle_time in He|apply Ls, kle_time in He]; lia.
+    + destruct (Z.min_spec (se_time c) (se_time s)) as [[_ E]|[_ E]]; rewrite E.
+      * exists c. split; [apply in_or_app; left; exact Ic|reflexivity].
+      * exists s. split; [apply in_or_app; right; exact Is|reflexivity].
+  - specialize (Ic c eq_refl). rewrite Ls, app_nil_r. split.
+    + intros e He. apply kle_time. apply Lc. exact He.
+    + exists c. split; [exact Ic|reflexivity].
+  - specialize (Is s eq_refl). rewrite Lc. cbn [app]. split.
+    + intros e He. apply kle_time. apply Ls. exact He.
+    + exists s. split; [exact Is|reflexivity].
+Qed.
+
+(** * C14 *)
+Theorem no_machines_identity : forall fuel cc sc tp tr delay args out limit,
+  machines cc = [] -> machines sc = [] ->
+  full_args args -> a_continue args = false -> a_max_trace args = 0 -> a_max_iter args = 0 ->
+  tr <> [] -> Sorted Z.le (map fst tr) ->
+  (forall a b, In a (map fst tr) -> In b (map fst tr) -> (Z.abs (a - b) + Z.of_N delay < Z.of_N DMAX)%Z) ->
+  sq_pps (parse_trace tr delay) = Some limit ->
+  (forall c, In c (win_counts WINDOW (sends tr)) -> c <= limit) ->
+  (forall c, In c (win_counts WINDOW (map (fun t => (t - Z.of_N delay)%Z) (recvs tr))) -> c <= limit) ->
+  sim_advanced fuel cc sc tp (parse_trace tr delay) delay None args = Ok out ->
+  (forall e, In e out -> plain e) /\
+  Permutation (times (is_ts true false) out) (sends tr) /\
+  Permutation (times (is_tr true false) out) (recvs tr) /\
+  Permutation (times (is_tr false false) out) (map (fun t => (t + Z.of_N delay)%Z) (sends tr)) /\
+  Permutation (times (is_ts false false) out) (map (fun t => (t - Z.of_N delay)%Z) (recvs tr)).
+Proof.
+  intros fuel cc sc tp tr delay args out limit Hmc Hms Hfull Hcont Hmt Hmi Hne Hsorted Hspan Hpps
+         Hnc Hns H.
+  set (sq := parse_trace tr delay) in *.
+  destruct (parse_trace_events tr delay) as [HPQ Hheaps]. fold sq in HPQ, Hheaps.
+  pose proof (parse_trace_init tr delay) as Hinit. fold sq in Hinit.
+  assert (Hd : delay < DMAX).
+  { destruct tr as [|[t dir] rest]; [contradiction Hne; reflexivity|].
+    specialize (Hspan t t (or_introl eq_refl) (or_introl eq_refl)). lia. }
+  assert (HSS : StronglySorted Z.le (map fst tr)).
+  { apply Sorted_StronglySorted; [|exact Hsorted]. intros a b c. apply Z.le_trans. }
+  assert (HLc : StronglySorted Z.le (sends tr)).
+  { unfold sends. rewrite <- (map_id (map fst (filter (fun x => snd x) tr))).
+    apply ssorted_map_filter; [auto|exact HSS]. }
+  assert (HLs : StronglySorted Z.le (unshift delay (recvs tr))).
+  { unfold unshift, recvs. apply ssorted_map_filter; [intros; lia|exact HSS]. }
+  assert (Hev : forall e, In e (all_events sq) ->
+            plain e /\ se_ev e = TENormalSent /\
+            exists a, In a (map fst tr) /\ (se_time e = a \/ se_time e = (a - Z.of_N delay)%Z)).
+  { intros e He. apply (ev_of_spec delay tr). eapply Permutation_in; [exact HPQ|exact He]. }
+  unfold sim_advanced in H.
+  destruct (sq_first_time sq) as [t0|] eqn:E0; [|discriminate H].
+  mbind H as cfw E1. mbind H as sfw E2. mbind H as net E3. mbind H as trc E4. injection H as <-.
+  destruct (first_time_min sq t0 Hinit Hheaps E0) as [Hmin (e0 & He0 & Ht0)].
+  assert (Hslots : forall c t p fw, machines c = [] -> fnew_at c tp t p = Ok fw -> idle_side (new_side c fw)).
+  { intros c t p fw Hm Hf. unfold fnew_at in Hf. mbind Hf as [rs p'] Er. injection Hf as <-.
+    unfold idle_side, new_side. cbn [s_sched s_timers s_buntil s_fw slots]. rewrite Hm. auto. }
+  unfold netb_new in E3. rewrite Hpps in E3. injection E3 as <-.
+  apply (sim_loop_identity cc sc tp args delay limit (sends tr) (unshift delay (recvs tr))
+           Hfull Hcont Hmt Hmi Hd HLc HLs Hnc Hns) in E4.
+  2:{ constructor; cbn [m_c m_s m_net m_sq n_cwin n_swin].
+      - eapply Hslots; eauto.
+      - eapply Hslots; eauto.
+      - unfold quiet_net. cbn [n_cagg n_sagg n_aggq n_delay n_limit]. auto.
+      - apply parse_trace_wf.
+      - exact Hheaps.
+      - apply init_routed. exact Hinit.
+      - intros e He. apply Hev. exact He.
+      - intros e He. split; [apply Hmin; exact He|].
+        destruct (Hev e He) as (_ & _ & a & Ha & Hta).
+        destruct (Hev e0 He0) as (_ & _ & b & Hb & Htb).
+        specialize (Hspan a b Ha Hb). lia.
+      - intros e [].
+      - exists [], (sends tr). split; [reflexivity|]. split; [reflexivity|].
+        split; [|split].
+        + intros z. rewrite !(ct_perm _ _ HPQ). rewrite (proj1 (ev_of_counts delay tr z)).
+          rewrite ct_none; [lia|]. intros e He. destruct (ev_of_spec _ _ _ He) as (_ & Ev & _).
+          unfold is_ts. rewrite Ev. reflexivity.
+        + intros z. reflexivity.
+        + intros z. rewrite ct_nil. cbn [shift map]. rewrite cz_nil.
+          rewrite (ct_perm _ _ HPQ). rewrite ct_none; [lia|].
+          intros e He. destruct (ev_of_spec _ _ _ He) as (_ & Ev & _).
+          unfold is_tr. rewrite Ev. reflexivity.
+      - exists [], (unshift delay (recvs tr)). split; [reflexivity|]. split; [reflexivity|].
+        split; [|split].
+        + intros z. rewrite !(ct_perm _ _ HPQ). rewrite (proj2 (ev_of_counts delay tr z)).
+          rewrite ct_none; [lia|]. intros e He. destruct (ev_of_spec _ _ _ He) as (_ & Ev & _).
+          unfold is_ts. rewrite Ev. reflexivity.
+        + intros z. reflexivity.
+        + intros z. rewrite ct_nil. cbn [shift map]. rewrite cz_nil.
+          rewrite (ct_perm _ _ HPQ). rewrite ct_none; [lia|].
+          intros e He. destruct (ev_of_spec _ _ _ He) as (_ & Ev & _).
+          unfold is_tr. rewrite Ev. reflexivity. }
+  destruct E4 as (accf & -> & Hpl & A1 & A2 & B1 & B2).
+  assert (HPo : Permutation (sort_time (rev accf)) accf).
+  { eapply perm_trans; [apply sort_time_perm|]. apply Permutation_sym. apply Permutation_rev. }
+  assert (Hback : shift delay (unshift delay (recvs tr)) = recvs tr).
+  { unfold shift, unshift. rewrite map_map. rewrite <- (map_id (recvs tr)) at 2.
+    apply map_ext. intros a. lia. }
+  split; [intros e He; apply Hpl; eapply Permutation_in; [exact HPo|exact He]|].
+  split; [apply times_ct_perm; intros z; rewrite (ct_perm _ _ HPo); apply A1|].
+  split; [apply times_ct_perm; intros z; rewrite (ct_perm _ _ HPo), B2, Hback; reflexivity|].
+  split; [apply times_ct_perm; intros z; rewrite (ct_perm _ _ HPo); apply A2|].
+  apply times_ct_perm. intros z. rewrite (ct_perm _ _ HPo). apply B1.
+Qed.
+
+(** the statement as first posed carried [clock_total] for both configurations; it is not needed
+    (without machines the framework never touches its clock) *)
+Corollary no_machines_identity_clock_total : forall fuel cc sc tp tr delay args out limit,
+  machines cc = [] -> machines sc = [] ->
+  clock_total (clk cc) -> clock_total (clk sc) ->
+  full_args args -> a_continue args = false -> a_max_trace args = 0 -> a_max_iter args = 0 ->
+  tr <> [] -> Sorted Z.le (map fst tr) ->
+  (forall a b, In a (map fst tr) -> In b (map fst tr) -> (Z.abs (a - b) + Z.of_N delay < Z.of_N DMAX)%Z) ->
+  sq_pps (parse_trace tr delay) = Some limit ->
+  (forall c, In c (win_counts WINDOW (sends tr)) -> c <= limit) ->
+  (forall c, In c (win_counts WINDOW (map (fun t => (t - Z.of_N delay)%Z) (recvs tr))) -> c <= limit) ->
+  sim_advanced fuel cc sc tp (parse_trace tr delay) delay None args = Ok out ->
+  (forall e, In e out -> plain e) /\
+  Permutation (times (is_ts true false) out) (sends tr) /\
+  Permutation (times (is_tr true false) out) (recvs tr) /\
+  Permutation (times (is_tr false false) out) (map (fun t => (t + Z.of_N delay)%Z) (sends tr)) /\
+  Permutation (times (is_ts false false) out) (map (fun t => (t - Z.of_N delay)%Z) (recvs tr)).
+Proof. intros fuel cc sc tp tr delay args out limit Hmc Hms _ _. apply no_machines_identity; assumption. Qed.
